@@ -605,29 +605,6 @@ func (f *front) serve(ctx context.Context, addr string, req *tikvrpc.Request, ti
 			return &tikvrpc.Response{Resp: &kvrpcpb.ScanResponse{}}, nil
 		}
 	}
-	if req.Type == tikvrpc.CmdPessimisticRollback && f.w.ref == nil && len(req.PessimisticRollback().Keys) == 0 {
-		// Region-level pessimistic rollback (no keys: "every pessimistic lock of the transaction in this
-		// region"). The mock's handler hands the region's memcomparable-encoded bounds to a store
-		// method that takes them as raw keys (rpc.go handleKvPessimisticRollback), so with a bounded
-		// region the scan starts behind the region's first key and a lock sitting there is never
-		// removed: the resolver retries for ever. The key list is filled in here from the store's locks.
-		if sess, re, err := f.session(addr, req); err == nil && re == nil {
-			start, end := sess.VerifRegionRange()
-			r := *req.PessimisticRollback()
-			for _, l := range f.w.mvcc.VerifDumpLocks() {
-				if l.LockType == kvrpcpb.Op_PessimisticLock && l.LockVersion == r.StartVersion && l.LockForUpdateTs <= r.ForUpdateTs && inRange(start, end, l.Key) {
-					r.Keys = append(r.Keys, l.Key)
-				}
-			}
-			if len(r.Keys) == 0 {
-				return &tikvrpc.Response{Resp: &kvrpcpb.PessimisticRollbackResponse{}}, nil
-			}
-			rc := *req
-			rc.Req = &r
-			f.w.sim.Count("front.region-level-pessimistic-rollback")
-			return f.inner.SendRequest(ctx, addr, &rc, timeout)
-		}
-	}
 	return f.inner.SendRequest(ctx, addr, req, timeout)
 }
 
